@@ -8,6 +8,7 @@ import (
 	"context"
 	"errors"
 	"fmt"
+	lfshttp "github.com/superfly/litefs/http"
 	"io"
 	"os"
 	"path/filepath"
@@ -656,19 +657,61 @@ func clusterRoles(c *common.Ctx, r *common.Rand, idx int) error {
 		}
 	}
 	if holder != nil {
+		// (the end of the role is the cancellation of the primary-scoped context: the same node may win the next
+		// election a moment later, which polling IsPrimary could miss)
+		hctx := holder.Store.PrimaryCtx(context.Background())
+		// a follower's view: a replication stream opened while the node is primary ends with the role
+		streamEnded := make(chan struct{})
+		sctx, scancel := context.WithCancel(context.Background())
+		probePos := map[string]ltx.Pos{}
+		for _, db := range holder.Store.DBs() { // caught up on everything: only control frames will follow
+			probePos[db.Name()] = db.Pos()
+		}
+		if st, err := lfshttp.NewClient().Stream(sctx, holder.Server.URL(), 0x5151, probePos, nil); err == nil {
+			go func() {
+				defer close(streamEnded)
+				defer st.Close()
+				for {
+					if _, err := litefs.ReadStreamFrame(st); err != nil {
+						return
+					}
+				}
+			}()
+		} else {
+			close(streamEnded)
+		}
+		time.Sleep(50 * time.Millisecond)
+		select {
+		case <-streamEnded:
+			c.Count("cluster_probe_stream_ended_early", 1)
+		default:
+			c.Count("cluster_probe_stream_open_at_revocation", 1)
+		}
 		clu.Svc.Revoke()
 		t0 := time.Now()
-		for holder.Store.IsPrimary() && time.Since(t0) < 4*time.Second {
+		stepped := false
+		for !stepped && time.Since(t0) < 4*time.Second {
+			select {
+			case <-hctx.Done():
+				stepped = true
+			case <-time.After(3 * time.Millisecond):
+			}
 			if n.Store.IsPrimary() {
 				c.Violate("C08:cluster:noncandidate-primary", "the non-candidate node is primary (after revocation)", rep)
 			}
-			time.Sleep(3 * time.Millisecond)
 		}
 		c.Evaluations++
 		rep["stepdown_ms"] = time.Since(t0).Milliseconds()
-		if holder.Store.IsPrimary() {
-			c.Violate("C08:cluster:revoked-still-primary", "4 s after its lease was deleted at the lease service (TTL 2 s, renewal every 1 s) the node is still primary", rep)
+		if !stepped {
+			c.Violate("C08:cluster:revoked-still-primary", "4 s after its lease was deleted at the lease service (TTL 2 s, renewal every 1 s) the node still holds the primary role it had", rep)
+		} else {
+			select {
+			case <-streamEnded:
+			case <-time.After(1500 * time.Millisecond):
+				c.Violate("C08:cluster:stream-outlives-role", "1.5 s after the node lost the primary role a replication stream it was serving is still open (heartbeats keep arriving)", rep)
+			}
 		}
+		scancel()
 	}
 	// foreign cluster: a node whose directory belongs to another cluster joins and must stay out
 	fdir := filepath.Join(dir, "f")
